@@ -124,9 +124,14 @@ def job_guards():
                 pt['w'] = float(lim) / 2
             else:
                 pt['mu'] = max(float(lim) * 2, min(float(c[k]) / 2, 5.0e4))
-            Mv, note_ = eval_model('Maxwell', pt)
             Jm = 1 / pt['mu'] - 1j / (pt['eta'] * pt['w'])
-            return True, 'constants_x.pyx: %s = %s; Maxwell at the physical point %r returns %r, 1/J = %r [%s]' % (k, float(c[k]), pt, Mv, 1 / Jm, note_)
+            Mt = float_model('Maxwell', pt)          # current models.pyx with the CURRENT constants_x.pyx values
+            try:
+                r_ = replay.call_real([real_model_call('Maxwell', pt, None)])[0]
+                Mc = r_['value'] if r_['ok'] else r_.get('error')
+            except Exception as e_:
+                Mc = 'unavailable (%r)' % (e_,)
+            return True, 'constants_x.pyx: %s = %s; Maxwell at the physical point %r: current source gives %r, compiled module gives %r, 1/J = %r' % (k, float(c[k]), pt, Mt, Mc, 1 / Jm)
         results.append(discharge(Obligation('guard constant %s = %s %s %s (%s): the physical range reaches the main branch of every model' % (k, float(c[k]), op, float(lim), note), z3.BoolVal(bool(ok)), [],
                                             with_axioms=False, with_dens=False, replay=rp, key='guard-constant:%s' % k)))
     return {'results': results, 'encoded': loader.ENCODED + [{'file': 'TidalPy/utilities/constants_x.pyx', 'function': 'MIN_FREQUENCY, MAX_FREQUENCY, MIN_MODULUS', 'sha256_16': solve.sha_of(repr(sorted((k, str(v)) for k, v in c.items())))}],
